@@ -173,6 +173,8 @@ type World struct {
 
 	// environment events of the current phase
 	EnvFn func(seq uint64, i int)
+	// LockWaitFn (scheduler goroutine): task t, inside operation op, found a lock taken
+	LockWaitFn func(t, op int)
 
 	// inside-operation bookkeeping per task (scheduler-owned)
 	inOp     [maxTasks + 1]int // current op index per task (+1 slot for main), -1 when outside
@@ -352,6 +354,13 @@ func (w *World) Resume(seq uint64, m *Msg) Reply {
 		w.probe("blocked_on_cache_lock")
 	}
 	return Reply{}
+}
+
+// LockWaited is called by the scheduler at the moment a task has found a lock taken.
+func (w *World) LockWaited(task int) {
+	if w.LockWaitFn != nil {
+		w.LockWaitFn(task, w.inOp[task])
+	}
 }
 
 func (w *World) Note(seq uint64, m *Msg) {
